@@ -173,6 +173,55 @@ pub fn obs_ref<T: Subject>(doc: &T, locs: &LocMap, path: &str) -> String {
     }
 }
 
+/// The index steps of a location in its address-free spelling (`/n:6162/i:3` → ["3"]).
+fn loc_index_steps(loc: &str) -> Vec<String> {
+    loc.split('/').filter_map(|s| s.strip_prefix("i:")).map(|s| s.to_string()).collect()
+}
+
+/// The index steps of a reported path, as written: bracketed digit strings outside quoted names.
+/// None if the text is not of the form `$` (`['…']` | `[digits]`)*.
+fn path_index_steps(path: &str) -> Option<Vec<String>> {
+    let cs: Vec<char> = path.chars().collect();
+    if cs.first() != Some(&'$') {
+        return None;
+    }
+    let mut i = 1;
+    let mut out = vec![];
+    while i < cs.len() {
+        if cs[i] != '[' {
+            return None;
+        }
+        i += 1;
+        if i < cs.len() && cs[i] == '\'' {
+            i += 1;
+            loop {
+                if i >= cs.len() {
+                    return None;
+                }
+                match cs[i] {
+                    '\\' => i += 2,
+                    '\'' if i + 1 < cs.len() && cs[i + 1] == ']' => {
+                        i += 2;
+                        break;
+                    }
+                    _ => i += 1,
+                }
+            }
+        } else {
+            let st = i;
+            while i < cs.len() && cs[i].is_ascii_digit() {
+                i += 1;
+            }
+            if i == st || i >= cs.len() || cs[i] != ']' {
+                return None;
+            }
+            out.push(cs[st..i].iter().collect());
+            i += 1;
+        }
+    }
+    Some(out)
+}
+
 /// Structured W/P/Q results for the agreement check (no string splitting involved).
 pub struct Triple {
     pub w: Result<Vec<(String, String, String)>, ()>,
@@ -217,6 +266,17 @@ impl Triple {
                     if w[i].0 != q[i].0 || w[i].2 != q[i].1 {
                         return Some(format!("position {}: query_with_path returns the node at {} ({}) but query returns the node at {} ({})", i, w[i].0, w[i].2, q[i].0, q[i].1));
                     }
+                    // the path at position i must be a path to the node at position i. Only the index
+                    // steps are compared here: how a member name is spelled in a path is C09's subject
+                    // (and has two known upstream defects there); an index has one spelling.
+                    if w[i].0 != "FOREIGN" {
+                        let want = loc_index_steps(&w[i].0);
+                        if let Some(got) = path_index_steps(&w[i].1) {
+                            if got != want {
+                                return Some(format!("position {}: query_with_path returns the node at {} but reports the path {} (index steps {:?}, the node's are {:?})", i, w[i].0, w[i].1, got, want));
+                            }
+                        }
+                    }
                     if w[i] != e[i] {
                         return Some(format!("position {}: parsing at the call gives {:?} but the query parsed once gives {:?}", i, w[i], e[i]));
                     }
@@ -231,5 +291,23 @@ impl Triple {
                 if self.e.is_ok() { "Ok" } else { "Err" }
             )),
         }
+    }
+}
+
+#[cfg(test)]
+mod tests {
+    use super::*;
+    #[test]
+    fn index_steps() {
+        assert_eq!(path_index_steps("$"), Some(vec![]));
+        assert_eq!(path_index_steps("$['a'][10][0]['b']"), Some(vec!["10".to_string(), "0".to_string()]));
+        assert_eq!(path_index_steps("$['[5]'][1]"), Some(vec!["1".to_string()]));
+        assert_eq!(path_index_steps("$['it\\'s'][2]"), Some(vec!["2".to_string()]));
+        assert_eq!(path_index_steps("$['a\\\\'][3]"), Some(vec!["3".to_string()]));
+        assert_eq!(path_index_steps("$['\"a\"'][3]"), Some(vec!["3".to_string()]));
+        assert_eq!(path_index_steps("$.a[3]"), None);
+        assert_eq!(path_index_steps("$['a"), None);
+        assert_eq!(loc_index_steps("/n:6162/i:3/i:10500"), vec!["3".to_string(), "10500".to_string()]);
+        assert_eq!(loc_index_steps("/"), Vec::<String>::new());
     }
 }
